@@ -95,6 +95,16 @@ impl FromStr for InputList {
     }
 }
 
+/// Only the white space XML allows between markup outside the root element
+fn is_xml_blank(bytes: &[u8]) -> bool {
+    for b in bytes {
+        if !matches!(b, b' ' | b'\t' | b'\r' | b'\n') {
+            return false;
+        }
+    }
+    true
+}
+
 impl InputList {
     pub fn new() -> Self {
         Self { events: vec![] }
@@ -145,6 +155,13 @@ impl InputList {
             match &ev {
                 Ok(Event::Eof) => break, // exits the loop when reaching end of file
                 Ok(Event::Text(t)) => {
+                    if event_idx_stack.is_empty() && !is_xml_blank(t) {
+                        // character data is only allowed inside an element; written out
+                        // it would precede (or follow) the root element
+                        return Err(SvgdxError::DocumentError(format!(
+                            "text outside of any element at line {src_line}"
+                        )));
+                    }
                     let mut t_str = String::from_utf8(t.to_vec())?;
                     if let Some((_, rest)) = t_str.rsplit_once('\n') {
                         t_str = rest.to_string();
